@@ -551,6 +551,78 @@ pub fn scenario_child(tier: Tier, name: &str) -> i32 {
     0
 }
 
+/// Supporting leg (sampling, NOT deciding): real OS threads hammer the shared default runtime
+/// with long expressions (compile + search), long numeric strings through to_number, by-functions
+/// and deep expressions; every observation must equal the sequentially computed one.  This is the
+/// only leg that can see a race between std locks / atomics inside one hook-free step.
+pub fn parallel_stress(threads: usize, iterations: usize) -> Option<String> {
+    let exprs: Vec<String> = vec![
+        "people[?age > `30` && name != 'nobody-in-particular'].{name: name, age: age, tags: tags[*]} | [0].name".into(),
+        "sort_by(people, &to_number(balance))[*].{n: name, b: to_number(balance)} | [-1].b || 'no-balance-at-all'".into(),
+        "people[*].tags[] | sort(@) | join(', ', @) | length(@) | to_string(@) | to_number(@) | abs(@) | ceil(@)".into(),
+        "max_by(people, &to_number(balance)).name || min_by(people, &age).name || 'nobody-in-particular'".into(),
+        "sum(people[*].to_number(balance)) | floor(@) | [@, @, @] | reverse(@) | [0]".into(),
+        format!("a{}", ".a".repeat(150)),
+        "people[*].to_number(balance) | [sum(@), max(@), min(@)] | map(&to_string(@), @) | join('/', @)".into(),
+    ];
+    let docs: Vec<Value> = (0..threads)
+        .map(|t| {
+            json!({"a": {"a": 1}, "people": (0..6).map(|i| json!({"name": format!("p{}-{}", t, i), "age": 25 + ((i * 7 + t) % 30), "balance": format!("{}.{:015}", 1000 * (t + 1) + (i / 2) * 13, ((i / 2) * 97 + t) % 1000), "tags": [format!("t{}", (i + t) % 3), "common"]})).collect::<Vec<_>>()})
+        })
+        .collect();
+    let expected: Vec<Vec<String>> = docs
+        .iter()
+        .map(|d| {
+            exprs.iter().map(|e| match jmespath::compile(e) {
+                Ok(x) => match x.search(value_to_var(d)) { Ok(v) => format!("ok {}", var_to_value(&v)), Err(e) => format!("err {:?}", e.reason) },
+                Err(e) => format!("compile err {:?}", e.reason),
+            }).collect()
+        })
+        .collect();
+    let exprs = Arc::new(exprs);
+    let shared: Arc<Vec<Arc<Expression<'static>>>> = Arc::new(exprs.iter().map(|e| Arc::new(jmespath::compile(e).unwrap())).collect());
+    let hs: Vec<_> = (0..threads)
+        .map(|t| {
+            let exprs = exprs.clone();
+            let shared = shared.clone();
+            let doc = docs[t].clone();
+            let want = expected[t].clone();
+            std::thread::spawn(move || -> Option<String> {
+                let rc = value_to_var(&doc);
+                for it in 0..iterations {
+                    for (k, e) in exprs.iter().enumerate() {
+                        // alternately a fresh compile through the default runtime and the shared expression
+                        let got = if it % 2 == 0 {
+                            match jmespath::compile(e) {
+                                Ok(x) => {
+                                    if x.as_str() != e { return Some(format!("compile({:?}) returned an expression for {:?}", e, x.as_str())); }
+                                    match x.search(&rc) { Ok(v) => format!("ok {}", var_to_value(&v)), Err(e) => format!("err {:?}", e.reason) }
+                                }
+                                Err(e) => format!("compile err {:?}", e.reason),
+                            }
+                        } else {
+                            match shared[k].search(&rc) { Ok(v) => format!("ok {}", var_to_value(&v)), Err(e) => format!("err {:?}", e.reason) }
+                        };
+                        if got != want[k] {
+                            return Some(format!("thread {} iteration {} expression {:?}: expected {} got {}", t, it, crate::engine::trunc(e, 80), want[k], got));
+                        }
+                    }
+                }
+                None
+            })
+        })
+        .collect();
+    let mut bad = None;
+    for h in hs {
+        match h.join() {
+            Ok(Some(b)) => bad = bad.or(Some(b)),
+            Ok(None) => {}
+            Err(_) => bad = bad.or(Some("a stress thread panicked".into())),
+        }
+    }
+    bad
+}
+
 pub fn run(tier: Tier, obligations: u64) -> i32 {
     let mut rep = Report::new("C16", tier);
     let mut st = Stats::default();
@@ -609,6 +681,15 @@ pub fn run(tier: Tier, obligations: u64) -> i32 {
         st.sample(|| json!({"scenario": name, "threads": v["threads"], "expressions": v["expressions"]}));
         table.insert(name, v);
     }
+    // supporting, sampling leg on real threads
+    {
+        let (th, it) = tier.pick((8, 1500), (16, 20000));
+        let bad = parallel_stress(th, it);
+        st.count("real_thread_stress_searches_supporting_only", (th * it * 7) as u64);
+        if let Some(b) = bad {
+            st.violate(Violation { key: "C16/real-threads/stress".into(), check: "real-threads".into(), case: json!({"kind": "real-threads-stress", "threads": th, "iterations": it}), expected: "every thread observes its sequential results".into(), actual: b });
+        }
+    }
     // first use of the default runtime
     install_hooks();
     if let Some((trace, what)) = explore_first_use(tier.pick(2, 3), &mut st) {
@@ -650,6 +731,13 @@ pub fn replay(case: &Value) -> Option<(String, bool)> {
             Some(match r {
                 Some(g) => (format!("divergent observations: {}", g), true),
                 None => ("schedule gives the sequential observations".into(), false),
+            })
+        }
+        "real-threads-stress" => {
+            let r = parallel_stress(case["threads"].as_u64()? as usize, case["iterations"].as_u64()? as usize);
+            Some(match r {
+                Some(b) => (b, true),
+                None => ("no divergence in this (sampled) run".into(), false),
             })
         }
         _ => None,
